@@ -68,7 +68,19 @@ def observe_random(args):
             ).solution
         )
     else:
-        res, p = mz.outcome(lambda: m.find_shortest_path(s, e))
+        # history and argument forms that must not matter: an earlier query on the same maze object; the cells given as tuples or as
+        # the caller's own ndarrays (int64 / int8), which the caller overwrites after the call and before it reads the path
+        if k % 2:
+            mz.outcome(lambda: m.find_shortest_path((int(rng.integers(0, r)), int(rng.integers(0, c))), (int(rng.integers(0, r)), int(rng.integers(0, c)))))
+        form = (k // 2) % 3
+        if form == 0:
+            res, p = mz.outcome(lambda: m.find_shortest_path(s, e))
+        else:
+            dt = np.int64 if form == 1 or max(r, c) > 127 else np.int8
+            sa, ea = np.array(s, dtype=dt), np.array(e, dtype=dt)
+            res, p = mz.outcome(lambda: m.find_shortest_path(sa, ea))
+            sa[:] = [(s[0] + 1) % r, (s[1] + 1) % c]
+            ea[:] = [(e[0] + 1) % r, (e[1] + 1) % c]
     return dict(R=r, C=c, conn=mz.raw(conn), s=list(s), e=list(e), res=res, path=[[int(a), int(b)] for a, b in p] if res == "ok" else [], kind=kind, via=via, seed=[seed, k])
 
 
